@@ -1,6 +1,9 @@
 #pragma once
 
 #include <algorithm>
+#include <cmath>
+#include <type_traits>
+#include <utility>
 #include <nano/tensor.h>
 
 namespace nano
@@ -8,10 +11,47 @@ namespace nano
 ///
 /// \brief min-reduce the given set of accumulators (e.g. per thread) using the `m_score` attribute.
 ///
+///
+/// \brief returns true if the given (score, feature) candidate is better than the one stored in the accumulator.
+///
+/// NB: candidates with exactly the same score are ordered by the feature index,
+///     so that the selection doesn't depend on how the features are distributed to threads.
+///
+template <class taccumulator, class tscore, class tfeature>
+bool is_better(const taccumulator& accumulator, const tscore score, const tfeature feature)
+{
+    return std::isfinite(score) &&
+           (score < accumulator.m_score || (score == accumulator.m_score && feature < accumulator.m_feature));
+}
+
+namespace detail
+{
+template <class taccumulator, class = void>
+struct has_feature_t : std::false_type
+{
+};
+
+template <class taccumulator>
+struct has_feature_t<taccumulator, std::void_t<decltype(std::declval<const taccumulator&>().m_feature)>> : std::true_type
+{
+};
+} // namespace detail
+
 template <class taccumulator>
 const auto& min_reduce(const std::vector<taccumulator>& accumulators)
 {
-    const auto op = [](const taccumulator& one, const taccumulator& other) { return one.m_score < other.m_score; };
+    const auto op = [](const taccumulator& one, const taccumulator& other)
+    {
+        if constexpr (detail::has_feature_t<taccumulator>::value)
+        {
+            // NB: break ties by the feature index, as the accumulators are filled in a thread-dependent order!
+            return one.m_score < other.m_score || (one.m_score == other.m_score && one.m_feature < other.m_feature);
+        }
+        else
+        {
+            return one.m_score < other.m_score;
+        }
+    };
     const auto it = std::min_element(accumulators.begin(), accumulators.end(), op);
     return *it;
 }
